@@ -24,6 +24,9 @@ type Pass1 struct {
 	ExternSymbolList []string
 	Client           client.CodegenClient // 中間言語
 	AsmDB            *asmdb.InstructionDB
+	RelaxBranches    bool           // 分岐命令の形式を緩和法で決める (frontend.Exec が設定; branch_relax.go)
+	BranchForms      []int          // これまでの走査で決まった分岐形式 (分岐の出現順)
+	Branches         []BranchRecord // 今回の走査で見つかった分岐
 }
 
 // Eval は AST を走査し、pass1 の処理を実行します。
